@@ -43,24 +43,26 @@ func c14recPeer(r *vfRand) peer.ID {
 }
 
 type c14recCase struct {
-	kind     string // "pm" | "vs"
-	ctor     string
-	interval time.Duration
-	validity time.Duration
-	startGC  int // vs: 0 never, 1 once, 2 twice, 3 with a parent context that is cancelled at some step
-	ops      []string
-	closeAt  int
-	conc2    bool
-	strat    int
-	prefill  int
-	warm     bool // a GC sweep is already in progress when the operations start
+	kind       string // "pm" | "vs"
+	ctor       string
+	interval   time.Duration
+	validity   time.Duration
+	startGC    int // vs: 0 never, 1 once, 2 twice, 3 with a parent context that is cancelled at some step
+	ops        []string
+	closeAt    int
+	closeOp1   int // >0: Close follows the start of operation closeOp1-1 by closeDelay steps
+	closeDelay int
+	conc2      bool
+	strat      int
+	prefill    int
+	warm       bool // a GC sweep is already in progress when the operations start
 }
 
 func c14recRun(r *vfRand, c *c14recCase, tr *zzc14.Trace) (*zzc14.Plan, string) {
 	gate := zzc14.NewGate()
 	gate.Open.Store(true)
 	store := zzc14.NewStore("rec", gate)
-	plan := &zzc14.Plan{Gate: gate, CloseAt: c.closeAt, Concurrent2: c.conc2, MaxSteps: 500, Idle: c.interval, MaxIdle: 12,
+	plan := &zzc14.Plan{Gate: gate, CloseAt: c.closeAt, CloseOp1: c.closeOp1, CloseDelay: c.closeDelay, Concurrent2: c.conc2, MaxSteps: 500, Idle: c.interval, MaxIdle: 12,
 		Pick: zzc14.PickBy(c.strat, r.Intn)}
 	if plan.Idle <= 0 {
 		plan.Idle = time.Second
@@ -262,6 +264,9 @@ func c14recGen(r *vfRand, i int) *c14recCase {
 		c.closeAt = r.Intn(4 + 5*len(c.ops))
 	}
 	c.conc2 = r.Chance(35)
+	if len(c.ops) > 0 && r.Chance(55) {
+		c.closeOp1, c.closeDelay = 1+r.Intn(len(c.ops)), 1+r.Intn(4)
+	}
 	return c
 }
 
@@ -271,7 +276,7 @@ func TestVerifC14Records(t *testing.T) {
 	zzc14.StartClock()
 	seed := vfSeed()
 	n := vfEnvInt("VERIF_N", 100)
-	only := vfOnly()
+	only := zzc14.Only(1, vfOnly())
 	cs := vfNewCases("Run_C14", 50)
 	curComp, curDesc := "CProvMgr", map[string]any{}
 	zzc14.OnHang(func(label, stacks string) {
@@ -282,12 +287,12 @@ func TestVerifC14Records(t *testing.T) {
 	root := vfNewRand(seed)
 	for i := 0; i < n; i++ {
 		r := root.Fork()
-		if only >= 0 && i != only {
+		if only != -1 && i != only {
 			continue
 		}
 		c := c14recGen(r, i)
 		comp := map[string]string{"pm": "CProvMgr", "vs": "CValueStore"}[c.kind]
-		desc := map[string]any{"case": i, "seed": seed, "pkg": "records", "comp": c.kind, "ctor": c.ctor, "ops": c.ops, "closeAt": c.closeAt,
+		desc := map[string]any{"case": zzc14.CaseID(1, i), "seed": seed, "pkg": "records", "comp": c.kind, "ctor": c.ctor, "ops": c.ops, "closeAt": c.closeAt, "closeOp1": c.closeOp1, "closeDelay": c.closeDelay,
 			"concurrent2": c.conc2, "strategy": c.strat, "interval_s": c.interval.Seconds(), "validity_s": c.validity.Seconds(), "startGC": c.startGC, "prefill": c.prefill, "warm": c.warm}
 		curComp, curDesc = comp, desc
 		tr := &zzc14.Trace{}
